@@ -500,6 +500,11 @@ impl Interp {
                 return;
             }
         }
+        if crate::drv::HANGS.load(std::sync::atomic::Ordering::SeqCst) >= 3 {
+            // three requests were never answered (each costs the watchdog's 10 s and leaks a tracker): reported, enough
+            rep.count("skipped_after_three_hangs", 1);
+            return;
+        }
         rep.cases += 1;
         rep.sample(beh);
         self.classify(steps, rep);
@@ -511,7 +516,13 @@ impl Interp {
         let literal = drv.literal_ids();
         let mut run = Run { drv, to_spec: HashMap::new(), to_real: HashMap::new(), literal, first_slot: HashMap::new(), resized: Default::default() };
         let m0 = rep.mismatches;
+        let hangs0 = crate::drv::HANGS.load(std::sync::atomic::Ordering::SeqCst);
         self.replay_steps(idx, beh, steps, &mut run, reordered0, rep);
+        if crate::drv::HANGS.load(std::sync::atomic::Ordering::SeqCst) > hangs0 {
+            // a batch request was never answered: the destructor would wait for the stuck threads
+            std::mem::forget(run);
+            return;
+        }
         // the tracker's destructor (it stops and joins the worker threads) belongs to the code under test as well
         if std::panic::catch_unwind(std::panic::AssertUnwindSafe(move || drop(run))).is_err() && rep.mismatches == m0 {
             if self.focus == "all" || props_of("panic").contains(&self.focus.as_str()) {
@@ -530,11 +541,15 @@ impl Interp {
             let r = std::panic::catch_unwind(std::panic::AssertUnwindSafe(|| self.step(run, s, &before)));
             let m = match r {
                 Ok(m) => m,
-                Err(_) => {
+                Err(e) => {
                     // a batch call for several scenes that panics: the scenes of one batch were not served independently
                     let o = jget(s, "o");
                     let multi = jstr(o, "op") == "batch" && jarr(o, "b").len() >= 2;
-                    Some(((if multi { "panic:multi-scene-batch" } else { "panic" }).to_string(), json!({})))
+                    if crate::geom_replay::panic_text(&e).starts_with("hang:") {
+                        Some(("hang".to_string(), json!({"watchdog": crate::geom_replay::panic_text(&e)})))
+                    } else {
+                        Some(((if multi { "panic:multi-scene-batch" } else { "panic" }).to_string(), json!({})))
+                    }
                 }
             };
             if let Some((aspect, mut detail)) = m {
